@@ -243,7 +243,9 @@ def run(spec):
     rng = rng_for("C04", spec["seed"], spec["j"])
     kind, style = spec["calc"]
     for i in range(spec["sims"]):
-        s = workloads.gen(rng, spec["family"], styles=[style if kind == "soft" else "plain"], p_scripted=0.35, constraints=False)
+        # every other simulation carries constraints (FixAtoms on a framework / the first atom, or FixCom): the
+        # calculator's own copy of the atoms carries copies of them too
+        s = workloads.gen(rng, spec["family"], styles=[style if kind == "soft" else "plain"], p_scripted=0.35, constraints=(i % 2 == 1))
         if kind in ("emt", "lj"):
             a = s["atoms"]
             if a["kind"] in ("gas", "mixed"):
